@@ -157,6 +157,20 @@ def atomic(F, rep):
                 compile_try = any(p.get("k") == "Try" for p in parents) or peel(s).get("k") == "Try"
             if any(n is o[0] for o in opened) and i_create is None:
                 i_create = i
+    # all-or-nothing also when the write itself fails: the bytes must go to a temporary file that replaces FILE in one step
+    renames = [c for c in nodes(file_arm["body"], "Call") if callee(c) == "std::fs::rename"]
+    rep.ob("ATOMIC", "write-replaces-in-one-step", bool(renames),
+           "the buffer is written to a temporary file that is renamed over FILE" if renames else
+           "FILE is truncated by File::create and then written in place: when write_all fails part-way (full disk, file size "
+           "limit) an existing FILE has lost its old contents and holds a prefix of the new program - neither complete nor "
+           "untouched", line_of(opened[0][0]))
+    # a path that cannot be created is an error to report, not a panic
+    panics = [c for c in nodes(file_arm["body"], "MethodCall") if c["m"] in ("expect", "unwrap")
+              and (callee(c) or "").startswith("core::result::Result::")]
+    rep.ob("EXIT", "output-file|io-errors-reported", not panics,
+           "failing to create or write FILE is returned as Error::IOError (printed, status 1)" if not panics else
+           "an io::Result on the `-o FILE` path is unwrapped with %s: `-o missing-dir/out.lua` panics (status 101, no error "
+           "report) instead of printing an error" % sorted({c["m"] for c in panics}), line_of(panics[0]) if panics else line_of(file_arm))
     rep.ob("ATOMIC", "compile-before-create", i_compile is not None and i_create is not None and i_compile < i_create and compile_try,
            "with -o FILE the program is compiled first and `?` leaves on failure; File::create comes afterwards (statements %s < %s)" % (i_compile, i_create),
            line_of(file_arm))
